@@ -411,6 +411,19 @@ def wall_scenarios(dim=3, periodic=False, mask=None):
     return out
 
 
+def upper_wall_periodic_scenarios(dim=3):
+    """periodic boxes with a generator whose coordinate equals anchor + width on an active axis (accepted input: it is the image of a point on the
+    lower wall), no other generator on the opposite wall"""
+    out = []
+    a, w = (0.0, 0.0, 0.0), (1.0, 1.25, 0.75)
+    for gs in ([(1.0, 0.4, 0.6), (0.3, 0.5, 0.3)], [(0.4, 1.0, 0.6), (0.3, 0.5, 0.3), (0.7, 0.2, 0.5)], [(1.0, 1.0, 1.0), (0.5, 0.5, 0.5)]):
+        gens = [[a[k] + g[k] * w[k] if k < dim else 0.0 for k in range(3)] for g in gs]
+        if len({tuple(g) for g in gens}) != len(gens):
+            continue
+        out.append({'kind': 'scenario', 'dim': dim, 'periodic': True, 'anchor': list(a), 'width': list(w), 'gens': gens, 'mask': None})
+    return out
+
+
 def clustered_scenarios(dim=1, periodic=False, mask=None):
     """clusters along x (several nearest neighbours on the same side of a generator) - valid, non-degenerate inputs"""
     out = []
@@ -483,6 +496,8 @@ def battery(seed=0):
             out.extend(wall_scenarios(dim, per))
             out.extend(wall_scenarios(dim, per, mask=[False, True, True]))
             out.extend(pair_scenarios(dim, per))
+            if per:
+                out.extend(upper_wall_periodic_scenarios(dim))
             out.extend(clustered_scenarios(dim, per))
             for s_, off_ in ((1e-9, (0.0, 0.0, 0.0)), (1e-17, (0.0, 0.0, 0.0)), (3e6, (7.0, -3.0, 11.0))):
                 out.append(scaled(scenario(dim, per, 4, None, seed=seed + 3), s_, off_))
